@@ -163,6 +163,20 @@ func c20Mutants(p c20Pair, frame []byte, fields []c20Field) []*c20Input {
 		out = append(out, &c20Input{Mode: 'd', API: p.T.Key, Ver: p.Ver, APIName: p.T.Name, Frame: b,
 			Role: f.Role, Kind: f.Kind, Path: f.Path, VClass: m.VClass, Variant: variant, Info: info})
 	}
+	// two fields at once: the length under test and the frame size, which announces 2^30 bytes while
+	// only the original bytes arrive. The statement bounds allocation by the bytes actually received,
+	// so a length that is consistent with the announced frame size only must not size an allocation.
+	inflated := func(f *c20Field, m c20Mut, b []byte) {
+		if f.Role == "framesize" || len(b) < 4 {
+			return
+		}
+		switch m.VClass {
+		case "2^15-1", "2^24", "2^31-1", "remaining+1":
+			fx := append([]byte(nil), b...)
+			binary.BigEndian.PutUint32(fx, 1<<30)
+			mk(f, m, "frame-size-2^30", fx, false)
+		}
+	}
 	for i := range fields {
 		f := &fields[i]
 		for _, m := range c20Values(frame, f) {
@@ -170,6 +184,7 @@ func c20Mutants(p c20Pair, frame []byte, fields []c20Field) []*c20Input {
 			switch {
 			case f.Kind != "record-batch":
 				mk(f, m, "", c20Splice(frame, f, m.Bytes, true), false)
+				inflated(f, m, c20Splice(frame, f, m.Bytes, true))
 				if widthChanged {
 					mk(f, m, "stale-size", c20Splice(frame, f, m.Bytes, false), false)
 				}
@@ -386,8 +401,16 @@ func c20Judge(k *core.Case, in *c20Input, r c20Result) {
 		}
 		k.Viol(fmt.Sprintf("c20:process-death:%s:%s", site, in.Role), fmt.Sprintf("decoding kills the process: %s; %s%s", c20FirstLine(st), what, via), wit)
 	case "over":
+		if in.Variant == "frame-size-2^30" {
+			k.Viol(fmt.Sprintf("c20:alloc-announced-not-received:%s:%s", r.Site, in.Role), fmt.Sprintf("decoding allocates %d bytes when %d bytes were received (bound %d): the length is only bounded by the frame size announced on the wire (2^30), largest allocation at %s; %s%s", r.Alloc, len(in.Frame), wit["bound"], r.Site, what, via), wit)
+			break
+		}
 		k.Viol(fmt.Sprintf("c20:alloc:%s:%s:%s", r.Site, in.Role, in.Kind), fmt.Sprintf("decoding allocates %d bytes for a %d-byte frame (bound %d), largest allocation at %s; %s%s", r.Alloc, len(in.Frame), wit["bound"], r.Site, what, via), wit)
 	case "over-running":
+		if in.Variant == "frame-size-2^30" {
+			k.Viol(fmt.Sprintf("c20:alloc-announced-not-received:%s:%s", r.Site, in.Role), fmt.Sprintf("decoding had allocated %d bytes when %d bytes were received (bound %d) and was still running in %s when it was stopped: the length is only bounded by the frame size announced on the wire (2^30); %s%s", r.Alloc, len(in.Frame), wit["bound"], r.Site, what, via), wit)
+			break
+		}
 		k.Viol(fmt.Sprintf("c20:alloc-unfinished:%s:%s:%s", r.Site, in.Role, in.Kind), fmt.Sprintf("decoding had allocated %d bytes for a %d-byte frame (bound %d) and was still running in %s when it was stopped; %s%s", r.Alloc, len(in.Frame), wit["bound"], r.Site, what, via), wit)
 	case "neither":
 		k.Viol("c20:neither:"+in.APIName, fmt.Sprintf("decoding returned neither an error nor a message: %s; %s%s", r.Msg, what, via), wit)
